@@ -107,6 +107,13 @@ func (g *CG) Callees(fn *ssa.Function) []*ssa.Function {
 
 // blockCallees adds the bounded out-edges of one basic block to set.
 func (g *CG) blockCallees(b *ssa.BasicBlock, set map[*ssa.Function]bool) {
+	for _, ins := range b.Instrs {
+		g.instrCallees(ins, set)
+	}
+}
+
+// instrCallees adds the bounded out-edges of one instruction to set.
+func (g *CG) instrCallees(ins ssa.Instruction, set map[*ssa.Function]bool) {
 	add := func(f *ssa.Function) {
 		if f == nil || f.Blocks == nil || !isIstioFunc(f) {
 			return
@@ -114,7 +121,7 @@ func (g *CG) blockCallees(b *ssa.BasicBlock, set map[*ssa.Function]bool) {
 		set[f] = true
 	}
 	var ops []*ssa.Value
-	for _, ins := range b.Instrs {
+	{
 		// referenced function values / closures
 		ops = ins.Operands(ops[:0])
 		for _, op := range ops {
@@ -137,7 +144,7 @@ func (g *CG) blockCallees(b *ssa.BasicBlock, set map[*ssa.Function]bool) {
 		}
 		ci, ok := ins.(ssa.CallInstruction)
 		if !ok {
-			continue
+			return
 		}
 		cc := ci.Common()
 		if cc.IsInvoke() {
@@ -147,12 +154,12 @@ func (g *CG) blockCallees(b *ssa.BasicBlock, set map[*ssa.Function]bool) {
 				sel := g.p.SSA.MethodSets.MethodSet(mi.X.Type()).Lookup(cc.Method.Pkg(), cc.Method.Name())
 				if sel != nil {
 					add(g.p.SSA.MethodValue(sel))
-					continue
+					return
 				}
 			}
 			it, ok := recvT.Underlying().(*types.Interface)
 			if !ok {
-				continue
+				return
 			}
 			for _, f := range g.impls(it, recvT, cc.Method) {
 				add(f)
